@@ -1,5 +1,6 @@
 //! Independent CQL v4 codec used as the trusted base of the oracles.
 pub mod prim;
+pub mod request;
 pub mod response;
 pub mod token;
 pub mod value;
